@@ -284,6 +284,11 @@ G_Term(cls, m, n, b, seed, depth, mode) ==
                 K == Op_Kron(<<G_Term("Dense", m1, m1, b1, seed + 3, 0, mode), G_Term("Dense", n \div m1, n \div m1, b1, seed + 5, 0, mode)>>)
                 f(s, k) == IF mode = 1 THEN G_Pos(b1 \o <<k>>, s) ELSE G_Int(b1 \o <<k>>, s)
             IN Op_KronAddedDiag(K, Op_KronDiag(<<Op_Diag(f(seed + 7, m1)), Op_Diag(f(seed + 9, n \div m1))>>))
+       \* ... and the same with constant factors of the diagonal (d1 I) kron (d2 I): yet another branch of its log-determinant
+       [] cls = "KronAddedKronConstDiag" ->
+            LET m1 == G_Factor(n, seed)
+                K == Op_Kron(<<G_Term("Dense", m1, m1, b1, seed + 3, 0, mode), G_Term("Dense", n \div m1, n \div m1, b1, seed + 5, 0, mode)>>)
+            IN Op_KronAddedDiag(K, Op_KronDiag(<<Op_ConstDiag(G_Pos(b1 \o <<1>>, seed + 7), m1), Op_ConstDiag(G_Pos(b1 \o <<1>>, seed + 9), n \div m1)>>))
        \* a batch whose members have Krylov spaces of different dimension: member 0 is 2 I + v v^T (two distinct eigenvalues), member 1 generic
        [] cls = "MixedSpectrum" ->
             LET v == T_Fill(<<n, 1>>, seed + 3, 1, 2) S0 == T_Add(T_Scale(T_EyeB(<<>>, n), 2), T_MatMul(v, T_Transpose(v)))
@@ -318,10 +323,10 @@ G_AllClasses == <<"Dense", "User", "Diag", "ConstDiag", "Identity", "Zero", "Toe
                   "LowRankRoot", "Kron", "Kron3", "KronTri", "KronDiag", "KronAddedDiag", "SumKron", "AddedDiag",
                   "LRRAddedDiag", "Sum", "Sum3", "PsdSum", "Matmul", "Mul", "ConstMul", "BlockDiag", "BlockInter",
                   "SumBatch", "BatchRepeat", "Cat", "Interp", "Masked", "Perm", "TransPerm", "Kernel", "SumInterp", "MatmulTri", "InterpRootSameIdx">>
-G_SquareOnly == {"BlockInterDiag", "CholDiag", "KronAddedKronDiag", "MixedSpectrum", "AddedDiagKBc", "TriRepeat", "BlockDiagRepeat", "BlockInterRepeat", "SumBatchRepeat", "AddedDiagRootI", "AddedDiagKronI", "CholKronTriU", "LowRankHuge", "ConstMulI", "BlockDiagConstMulI", "InterpRootSameIdx", "MatmulTri", "LRRAddedDiagI", "AddedDiagI", "SumI", "Diag", "ConstDiag", "Identity", "Toeplitz", "Tri", "Chol", "CholU", "Root", "LowRankRoot", "Kron3", "KronTri",
+G_SquareOnly == {"KronAddedKronConstDiag", "BlockInterDiag", "CholDiag", "KronAddedKronDiag", "MixedSpectrum", "AddedDiagKBc", "TriRepeat", "BlockDiagRepeat", "BlockInterRepeat", "SumBatchRepeat", "AddedDiagRootI", "AddedDiagKronI", "CholKronTriU", "LowRankHuge", "ConstMulI", "BlockDiagConstMulI", "InterpRootSameIdx", "MatmulTri", "LRRAddedDiagI", "AddedDiagI", "SumI", "Diag", "ConstDiag", "Identity", "Toeplitz", "Tri", "Chol", "CholU", "Root", "LowRankRoot", "Kron3", "KronTri",
                  "KronDiag", "KronAddedDiag", "SumKron", "AddedDiag", "LRRAddedDiag", "PsdSum", "Mul", "BlockDiag",
                  "BlockInter", "Perm", "TransPerm"}
-G_LeafClasses == {"InterpLeft", "CatICols", "CatIRows", "BlockInterDiag", "CholDiag", "KronAddedKronDiag", "MixedSpectrum", "AddedDiagKBc", "TriRepeat", "BlockDiagRepeat", "BlockInterRepeat", "SumBatchRepeat", "KernelM", "AddedDiagRootI", "AddedDiagKronI", "ConstMulBc", "CholKronTriU", "LowRankHuge", "ConstMulI", "BlockDiagConstMulI", "InterpRootSameIdx", "MixedDef", "AddedDiagRootConst", "AddedDiagBig", "DenseBig", "KronCholU", "BlockDiagCholU", "SumInterp", "MatmulTri", "LRRAddedDiagI", "AddedDiagI", "SumI", "Dense", "User", "Diag", "ConstDiag", "Identity", "Zero", "Toeplitz", "Chol", "CholU", "SumZ", "LowRankRoot", "KronTri",
+G_LeafClasses == {"KronAddedKronConstDiag", "InterpLeft", "CatICols", "CatIRows", "BlockInterDiag", "CholDiag", "KronAddedKronDiag", "MixedSpectrum", "AddedDiagKBc", "TriRepeat", "BlockDiagRepeat", "BlockInterRepeat", "SumBatchRepeat", "KernelM", "AddedDiagRootI", "AddedDiagKronI", "ConstMulBc", "CholKronTriU", "LowRankHuge", "ConstMulI", "BlockDiagConstMulI", "InterpRootSameIdx", "MixedDef", "AddedDiagRootConst", "AddedDiagBig", "DenseBig", "KronCholU", "BlockDiagCholU", "SumInterp", "MatmulTri", "LRRAddedDiagI", "AddedDiagI", "SumI", "Dense", "User", "Diag", "ConstDiag", "Identity", "Zero", "Toeplitz", "Chol", "CholU", "SumZ", "LowRankRoot", "KronTri",
                   "KronDiag", "SumKron", "LRRAddedDiag", "Perm", "TransPerm", "Kernel"}
 \* classes that only exist for PSD arguments
 G_PsdOnly == {"CholDiag", "MixedSpectrum", "BlockDiagRepeat", "BlockInterRepeat", "SumBatchRepeat", "CholKronTriU", "Chol", "CholU", "PsdSum", "Mul"}
